@@ -256,7 +256,7 @@ class Schema:
                 head = "extend type " + name
                 if ifs:
                     head += " implements " + " & ".join(ifs)
-                parts.append(head + " {\n  " + "\n  ".join(self._sdl_field(f) for f in fs) + "\n}")
+                parts.append(head + (" {\n  " + "\n  ".join(self._sdl_field(f) for f in fs) + "\n}" if fs else ""))
         return "\n\n".join(parts) + "\n"
 
     # ------------------------------------------------------------------ introspection JSON
@@ -553,8 +553,10 @@ def validate(schema, doc):
 # ---------------------------------------------------------------------------------------------
 
 
-def collect_fields(schema, frags, runtime_type, sel, visited=None, out=None):
-    """spec 6.3.2 CollectFields: ordered map response key -> list of Field nodes."""
+def collect_fields(schema, frags, runtime_type, sel, visited=None, out=None, parents=None, static_type=None):
+    """spec 6.3.2 CollectFields: ordered map response key -> list of Field nodes. When `parents` (a dict) is
+    given, id(node) -> the type whose selection set contains the node is recorded in it: that type, not the
+    runtime type, determines the Rust type the generator gives the field."""
     if out is None:
         out = OrderedDict()
     if visited is None:
@@ -562,6 +564,8 @@ def collect_fields(schema, frags, runtime_type, sel, visited=None, out=None):
     for s in sel:
         if isinstance(s, Field):
             out.setdefault(s.key, []).append(s)
+            if parents is not None:
+                parents[id(s)] = static_type
         elif isinstance(s, Spread):
             if s.name in visited:
                 continue
@@ -570,10 +574,10 @@ def collect_fields(schema, frags, runtime_type, sel, visited=None, out=None):
             if f is None:
                 continue
             if runtime_type in schema.possible_types(f.on):
-                collect_fields(schema, frags, runtime_type, f.sel, visited, out)
+                collect_fields(schema, frags, runtime_type, f.sel, visited, out, parents, f.on)
         else:
             if s.on is None or runtime_type in schema.possible_types(s.on):
-                collect_fields(schema, frags, runtime_type, s.sel, visited, out)
+                collect_fields(schema, frags, runtime_type, s.sel, visited, out, parents, s.on or static_type)
     return out
 
 
